@@ -342,6 +342,12 @@ def execute(h):
                 bump(probes, 'followed_rejection')
             if accepted and act['a'] == 'evict':
                 bump(faults, 'memo_eviction')
+            if accepted and act['a'] == 'derived_type' and \
+                    act.get('auto_ref') and not info.get('ref_sym'):
+                # all base types have a reference unit and no symbol was
+                # given: the reference unit is their product, under a
+                # generated symbol
+                violate('ref_unit_def', 'missing', i, action=act)
             if accepted and exp != 'reject':
                 # duplicate symbol accepted although the model knows it?
                 for s in ([info.get('ref_sym')] if act['a'] == 'derived_type'
